@@ -74,6 +74,8 @@ def ps_lattice(rng, tier: str) -> list[bytes]:
         for style in (b" " + sw, b" /" + sw[1:], b"/" + sw[1:]):
             for q in (b"", b'"', b"'"):
                 args.append(style + b" " + q + B64 + q)
+            for gap in (b"\t", b"\r\n", b"  ", b" \t ", b"\x0b", b"\n"):       # white space other than one blank before the argument
+                args.append(style + gap + B64)
             args.append(style + b' "' + B64)           # an opening quote that is never closed
             args.append(style + b" '" + B64 + b" ")
             args.append(style + b" " + B64 + b'"')      # a closing quote only
